@@ -75,16 +75,20 @@ func buildOverlay(repo, verif string, spec *CheckSpec, patches []SourcePatch, na
 		path := filepath.Join(repo, p.File)
 		src, ok := ov[path] // several patches may address one file
 		if !ok {
+			if strings.HasPrefix(filepath.Base(p.File), "zz_verif_") {
+				continue // a patch of another unit's harness file
+			}
 			var err error
 			src, err = os.ReadFile(path)
 			if err != nil {
 				return nil, err
 			}
 		}
-		if strings.Count(string(src), p.Old) != 1 {
-			return nil, fmt.Errorf("patch for %s does not apply (old text found %d times)", p.File, strings.Count(string(src), p.Old))
+		ns, err := p.apply(string(src))
+		if err != nil {
+			return nil, err
 		}
-		ov[path] = []byte(strings.Replace(string(src), p.Old, p.New, 1))
+		ov[path] = []byte(ns)
 	}
 	return ov, nil
 }
